@@ -10,7 +10,8 @@
    hook recorded.
 
    input : 1 nconn conn*        conn = nlab lab*
-           lab = 1 table key      a future registered (table numbering of the hook; key = stream / dir)
+           lab = 1 table key      a future registered (table numbering of the hook; key = stream / dir;
+                                  table 0 (on_connected): key 1 = the polling task is already in the queue)
                | 2 kind key       protocol event (numbering of the hook; Connected: key 1 = streams woken too)
                | 3                terminate by close
                | 4 stream         SendStream dropped
@@ -62,29 +63,35 @@ Definition nwoken (o : output) : N :=
 Definition enc_step (c c1 : conn) (o : output) : list N := sizes c ++ sizes c1 ++ [nwoken o].
 
 (* [next] = the fresh waker identity of the next registration *)
-Fixpoint run_conn (nlab : nat) (l : list N) (c : conn) (next : nat) (acc : list N)
+(* [acc] collects the per-label outputs in reverse order *)
+Fixpoint run_conn (nlab : nat) (l : list N) (c : conn) (next : nat) (acc : list (list N))
   : option (list N * list N) :=
   match nlab with
-  | O => Some (acc, l)
+  | O => Some (concat (rev acc), l)
   | S k =>
     match l with
     | 1%N :: table :: key :: r =>
       let? x := dec_waiter table key in
-      let c1 := reg_waiter c x next in
-      run_conn k r c1 (S next) (acc ++ enc_step c c1 ONone)
+      (* a task that is already waiting in on_connected polls again: same waker *)
+      let w := match table, key, on_connected c with
+               | 0%N, 1%N, w0 :: _ => w0
+               | _, _, _ => next
+               end in
+      let c1 := reg_waiter c x w in
+      run_conn k r c1 (S next) (enc_step c c1 ONone :: acc)
     | 2%N :: kind :: key :: r =>
       let? e := dec_event kind key in
       let '(c1, o) := step c (LEvent e) in
-      run_conn k r c1 next (acc ++ enc_step c c1 o)
+      run_conn k r c1 next (enc_step c c1 o :: acc)
     | 3%N :: r =>
       let '(c1, o) := step c LClose in
-      run_conn k r c1 next (acc ++ enc_step c c1 o)
+      run_conn k r c1 next (enc_step c c1 o :: acc)
     | 4%N :: key :: r =>
       let '(c1, o) := step c (LDropSend (nn key)) in
-      run_conn k r c1 next (acc ++ enc_step c c1 o)
+      run_conn k r c1 next (enc_step c c1 o :: acc)
     | 5%N :: key :: r =>
       let '(c1, o) := step c (LDropRecv (nn key)) in
-      run_conn k r c1 next (acc ++ enc_step c c1 o)
+      run_conn k r c1 next (enc_step c c1 o :: acc)
     | _ => None
     end
   end.
